@@ -317,6 +317,10 @@ func (k *kase) checkLedger(when string, lv []live) bool {
 		run.Inconclusive("auto-port server gave a port of this case to another case")
 		return true
 	}
+	if k.keyOverride != "" {
+		k.c.Violation(k.key(""), "%s (%s, %s): ledger differs from the model: gone or different %v; unexpected %v", when, k.kind, k.path, missing, extra)
+		return false
+	}
 	seen := map[string]bool{}
 	// a port of a live proxy that the manager lists as free again (double release): one finding, not two
 	for _, proto := range []string{"tcp", "udp"} {
